@@ -252,6 +252,9 @@ def run(prop: str, tier: str) -> int:
     inputs += list(drivers.token_soup(rng, 200 if tier == "quick" else 3000))
     inputs += context_urls()
     if prop == "C11":
+        from . import helpers_stage
+
+        helpers_stage.run(res, "brace", tier)
         for i, inst in enumerate(instances(rng, tier)):
             pre, suf = PRE[i % len(PRE)], SUF[(i // len(PRE)) % len(SUF)]
             blob = bytes(inst["blob"])
